@@ -13,6 +13,7 @@ Steps (all against /repo itself, undone afterwards with git checkout):
 import json, os, shutil, subprocess, sys, time
 
 VERIF = os.path.dirname(os.path.dirname(os.path.abspath(__file__)))
+os.environ["VERIF_EVIDENCE_DIR"] = "/tmp/verif-sensitivity-evidence"  # never overwrite the unchanged tree's evidence
 REPO = "/repo"
 
 
